@@ -188,8 +188,11 @@ def main(argv=None):
     def strict_failures():
       # an obligation that is discharged on the pinned tree (baseline) and now has a model (`sat`, not
       # `unknown`), on a path that used no abstraction of an opaque call
-      return [o for o in failed if o['result'] == 'sat' and not o['abstracted']
-              and baseline is not None and o['name'] in baseline['clause_ids']]
+      # (a lock-discipline obligation only exists when the rule is broken: it counts when the function itself is in
+      # the baseline, i.e. was free of such accesses on the pinned tree)
+      fn_in_baseline = baseline is not None and any(i.startswith(f'{prop}/{r["target"]}/') for i in baseline['clause_ids'])
+      return [o for o in failed if o['result'] == 'sat' and not o['abstracted'] and baseline is not None
+              and (o['name'] in baseline['clause_ids'] or (o['kind'] == 'lock-discipline' and fn_in_baseline))]
 
     if not decided and r.get('bounded'):
       name = r['bounded']
